@@ -618,6 +618,11 @@ type ExprBinOpRef<'a> = (&'a Sp<ast::Expr>, Sp<ast::BinOpKind>, &'a Sp<ast::Expr
 impl JmpKind {
     fn as_binop_cond(&self) -> Option<(Sp<ast::CondKeyword>, Sp<ExprBinOpRef<'_>>)> {
         match *self {
+            // a decrement jump ('--x > 0') cannot be negated into something that compiles
+            JmpKind::Cond { cond: sp_pat!(ast::Expr::BinOp(ref a, _, _)), .. }
+                if matches!(a.value, ast::Expr::XcrementOp { .. })
+                => None,
+
             JmpKind::Cond { keyword, cond: sp_pat!(span => ast::Expr::BinOp(ref a, op, ref b)) }
                 => Some((keyword, sp!(span => (a, op, b)))),
 
